@@ -395,6 +395,45 @@ theorem cstageAccept_ok {hs : List Hdr} (wf : HdrsWf hs) (key : Bytes) :
       · simp [hc, hd]
       · simp [hc, hd, cbad]
 
+/-- the extension loop accepts exactly: nothing, or one approved, well-formed permessage-compress extension -/
+theorem cextLoop_isSome (cfg : CliCfg) (es : List Ext) :
+    (cextLoop cfg es false).isSome =
+      (match es with
+       | [] => true
+       | [e] => isPmce e.name && pmceParamsOk false e && (cfg.accept != .denyAll)
+       | _ => false) := by
+  have htrue : ∀ es : List Ext, es ≠ [] → cextLoop cfg es true = none := by
+    intro es hne
+    cases es with
+    | nil => exact absurd rfl hne
+    | cons e es => unfold cextLoop; split <;> simp
+  cases es with
+  | nil => simp [cextLoop]
+  | cons e es =>
+    cases es with
+    | nil =>
+      unfold cextLoop
+      by_cases h1 : isPmce e.name = true
+      · by_cases h2 : pmceParamsOk false e = true
+        · by_cases h3 : cfg.accept = .denyAll
+          · simp [h1, h2, h3]
+          · simp [h1, h2, h3, cextLoop]
+        · simp [h1, h2]
+      · simp [h1]
+    | cons e2 es =>
+      unfold cextLoop
+      by_cases h1 : isPmce e.name = true
+      · by_cases h2 : pmceParamsOk false e = true
+        · by_cases h3 : cfg.accept = .denyAll
+          · simp [h1, h2, h3]
+          · simp [h1, h2, h3, htrue (e2 :: es) (by simp)]
+        · simp [h1, h2]
+      · simp [h1]
+
+theorem responseExtensionsOk_eq (cfg : CliCfg) (v : Bytes) :
+    responseExtensionsOk cfg v = (cextLoop cfg (parseExtensions v) false).isSome := by
+  rw [cextLoop_isSome]; rfl
+
 theorem cstageExtensions_ok (cfg : CliCfg) (hs : List Hdr) (l : List Bytes) :
     cstageExtensions cfg hs = .ok l ↔
       count hs b!"sec-websocket-extensions" ≤ 1 ∧
